@@ -14,6 +14,7 @@ import (
 const repoModule = "github.com/whoisnian/glb"
 
 type Env struct {
+	preDecl  map[string]bool // constant declarations hoisted into decls (entry heaps used by axioms)
 	prog     *ssa.Program
 	pkgs     map[string]*ssa.Package // by path
 	specs    *SpecSet
@@ -34,6 +35,7 @@ func NewEnv(prog *ssa.Program, specs *SpecSet) *Env {
 		e.pkgs[p.Pkg.Path()] = p
 	}
 	e.decls = append(e.decls, prelude)
+	e.decls = append(e.decls, "(declare-const now_0 Int)\n(assert (>= now_0 0))")
 	// register the scalar heaps up front so that `cell(x)` / havoc-everything cover all of them
 	for _, k := range []types.BasicKind{types.Bool, types.Int, types.Int8, types.Int16, types.Int32, types.Int64, types.Uint, types.Uint8, types.Uint16, types.Uint32, types.Uint64, types.Uintptr, types.Float64, types.String, types.UnsafePointer} {
 		e.memHeap(types.Typ[k])
@@ -86,6 +88,7 @@ const prelude = `(declare-sort Ref 0)
 (assert (forall ((s Str) (i Int)) (! (and (<= 0 (sat s i)) (< (sat s i) 256)) :pattern ((sat s i)))))
 (assert (forall ((s Str) (lo Int) (hi Int)) (! (=> (and (<= 0 lo) (<= lo hi) (<= hi (slen s))) (= (slen (ssub s lo hi)) (- hi lo))) :pattern ((ssub s lo hi)))))
 (assert (forall ((s Str) (lo Int) (hi Int) (i Int)) (! (=> (and (<= 0 lo) (<= lo hi) (<= hi (slen s)) (<= 0 i) (< i (- hi lo))) (= (sat (ssub s lo hi) i) (sat s (+ lo i)))) :pattern ((sat (ssub s lo hi) i)))))
+(assert (forall ((s Str) (lo Int) (hi Int) (k Int)) (! (=> (and (<= 0 lo) (<= lo k) (< k hi) (<= hi (slen s))) (= (sat (ssub s lo hi) (- k lo)) (sat s k))) :pattern ((sat s k) (ssub s lo hi)))))
 (assert (forall ((s Str)) (! (= (ssub s 0 (slen s)) s) :pattern ((ssub s 0 (slen s))))))
 (assert (forall ((s Str) (a Int) (b Int) (c Int) (d Int)) (! (=> (and (<= 0 a) (<= a b) (<= b (slen s)) (<= 0 c) (<= c d) (<= d (- b a))) (= (ssub (ssub s a b) c d) (ssub s (+ a c) (+ a d)))) :pattern ((ssub (ssub s a b) c d)))))
 (assert (forall ((a Str) (b Str)) (! (= (slen (scat a b)) (+ (slen a) (slen b))) :pattern ((scat a b)))))
@@ -267,6 +270,15 @@ func (e *Env) heapSort(name string) string { // recorded when first requested
 
 var heapSortTable = map[string]string{}
 
+// heapTypes: a Go type per heap (for maps: key and element), so that the heap's sort can be declared in any Env
+var heapTypes = map[string][]types.Type{}
+
+func (e *Env) ensureHeapSort(name string) {
+	for _, t := range heapTypes[name] {
+		e.sortOf(t)
+	}
+}
+
 func (e *Env) heapSorts() map[string]string { return heapSortTable }
 
 // memHeap: scalar memory is split by SMT sort and, for integers, by the underlying basic type: under Go's type
@@ -281,13 +293,18 @@ func (e *Env) memHeap(t types.Type) string {
 			switch b.Kind() {
 			case types.UntypedInt:
 				k = "int"
-			case types.UntypedRune:
-				k = "int32"
+			case types.UntypedRune, types.Int32:
+				k = "int32" // rune is an alias of int32
+			case types.Uint8:
+				k = "uint8" // byte is an alias of uint8
 			}
 			n = "Mem_Int_" + k
 		}
 	}
 	heapSortTable[n] = "(Array Ref " + s + ")"
+	if _, ok := heapTypes[n]; !ok {
+		heapTypes[n] = []types.Type{t}
+	}
 	return n
 }
 
@@ -297,6 +314,8 @@ func (e *Env) mapHeaps(m *types.Map) (has, val string) {
 	val = "MapVal_" + sanitize(ks) + "_" + sanitize(vs)
 	heapSortTable[has] = fmt.Sprintf("(Array Ref (Array %s Bool))", ks)
 	heapSortTable[val] = fmt.Sprintf("(Array Ref (Array %s %s))", ks, vs)
+	heapTypes[has] = []types.Type{m.Key(), m.Elem()}
+	heapTypes[val] = heapTypes[has]
 	return
 }
 
@@ -309,7 +328,11 @@ func (e *Env) fieldFn(t types.Type, i int) string {
 
 func (e *Env) fieldFnNamed(name string) string {
 	if _, ok := e.fieldTag[name]; !ok {
-		if strings.HasPrefix(name, "gfld_") {
+		if strings.HasPrefix(name, "gfld_any_") {
+			// markers declared on `any` (owned, pooled, wireCode, ...): tags from 2000000. An allocating callee cannot
+			// initialise them outside its modifies clause (see the call frame axiom and frameCheck).
+			e.fieldTag[name] = 2000000 + len(e.fieldTag) + 1
+		} else if strings.HasPrefix(name, "gfld_") {
 			e.fieldTag[name] = 1000000 + len(e.fieldTag) + 1
 		} else {
 			e.fieldTag[name] = len(e.fieldTag) + 1
@@ -362,6 +385,11 @@ func (e *Env) typeTagOf(t types.Type) int {
 	k := types.TypeString(t, nil)
 	if n, ok := e.typeTag[k]; ok {
 		return n
+	}
+	for i, o := range e.typeTagT {
+		if types.Identical(o, t) {
+			return i + 1
+		}
 	}
 	n := len(e.typeTag) + 1
 	e.typeTag[k] = n
